@@ -69,7 +69,8 @@ def make_cases(ctx):
         yield "h%d" % i, dict(i=i)
     negs = ["hb_not_allowed", "ku_unknown_type", "ku_in_tls12",
             "cr_without_pha_ext", "cert_unknown_context", "ccs_post_13",
-            "nst_to_server", "hb_declared_longer", "hb_short_padding",
+            "nst_to_server", "nst_to_server_pha_pending",
+            "hb_declared_longer", "hb_short_padding",
             "finished_post_handshake", "cr_to_server",
             "pha_bad_finished", "pha_bad_signature", "pha_no_verify",
             "pha_replay_answer", "hb_not_negotiated", "ku_straddle"]
@@ -254,10 +255,19 @@ def run_history(ctx, cid, P):
                         pumps[0] += 1
                 yield 1
             elif op[0] == "ku":
-                for r in conn.send_keyupdate_request(
-                        KeyUpdateMessageType.update_requested if op[1]
-                        else KeyUpdateMessageType.update_not_requested):
-                    yield r
+                # every third control message goes out with the fragment
+                # size set to exactly its length: one record, not a full
+                # one followed by an empty one
+                exact = (len(e.log) + e.ku_sent + len(e.hb_sent)) % 3 == 0
+                if exact:
+                    conn.recordSize = 5
+                try:
+                    for r in conn.send_keyupdate_request(
+                            KeyUpdateMessageType.update_requested if op[1]
+                            else KeyUpdateMessageType.update_not_requested):
+                        yield r
+                finally:
+                    conn.recordSize = 16384
                 e.ku_sent += 1
             elif op[0] == "pha":
                 pst = None
@@ -270,8 +280,13 @@ def run_history(ctx, cid, P):
                     yield r
             elif op[0] == "hb":
                 if conn.heartbeat_supported and conn.heartbeat_can_send:
-                    for r in conn.write_heartbeat(op[1], op[2]):
-                        yield r
+                    if (e.ku_sent + len(e.hb_sent)) % 3 == 0:
+                        conn.recordSize = 3 + len(op[1]) + op[2]
+                    try:
+                        for r in conn.write_heartbeat(op[1], op[2]):
+                            yield r
+                    finally:
+                        conn.recordSize = 16384
                     e.hb_sent.append(bytes(op[1]))
         done[who] = True
 
@@ -771,7 +786,7 @@ def run_negative(ctx, cid, P):
     # the TLS 1.3 cases get there through a HelloRetryRequest
     hrr = ver == (3, 4) and P.get("r", 0) % 2 == 1
     p, tc, ts = establish(rng, ver, False, "rsa" if k in (
-        "cert_unknown_context",) else None, hb,
+        "cert_unknown_context", "nst_to_server_pha_pending") else None, hb,
         server_hb=False if k == "hb_not_negotiated" else None, hrr=hrr)
     if tc.status != "done" or ts.status != "done":
         ctx.inconc("control failed in %s" % cid)
@@ -815,7 +830,16 @@ def run_negative(ctx, cid, P):
         msg = adv.Raw(22, wire.hs_msg(11, body))
     elif k == "ccs_post_13":
         msg = adv.Raw(20, b"\x01")
-    elif k == "nst_to_server":
+    elif k in ("nst_to_server", "nst_to_server_pha_pending"):
+        if k.endswith("pending"):
+            # the server has a post-handshake authentication request out:
+            # that admits the client's Certificate, nothing else
+            tq = drive.Task("req", p.s.request_post_handshake_auth(),
+                            p.ssock)
+            drive.run([tq], p.link)
+            if tq.status != "done":
+                ctx.inconc("PHA request failed in %s: %r" % (cid, tq.exc))
+                return
         msg = adv.Raw(22, wire.hs_msg(
             4, b"\x00\x00\x0e\x10" + b"\x00\x00\x00\x00" + b"\x01\x00" +
             b"\x00\x04abcd" + b"\x00\x00"))
